@@ -1,1 +1,182 @@
-/-! C19 property theorems about VARR and DLIST (none yet). -/
+import MirVerif.Lemmas.Varr
+import MirVerif.Lemmas.DlistOps
+/-!
+# C19, sequence part: `mir-varr.h` and `mir-dlist.h` preserve contents and order
+
+* `varr_seq`: for every history of VARR calls the live elements and every returned value are those
+  of the obvious `List` operations; a call is rejected (`VARR_ASSERT`) exactly when the list operation
+  is undefined (pop/last of empty, index out of range, trunc beyond the length).
+* `dlist_seq`: for every history of list calls that respects the documented usage (an inserted
+  element is not already linked, anchors / removed elements are in the list) the linked structure
+  represents the list obtained by the obvious `List` operations — forward traversal, backward
+  traversal, `DLIST_LENGTH`, `DLIST_EL` all agree with it — and the structural invariants hold
+  (`head->prev = NULL`, `tail->next = NULL`, `prev`/`next` inverse of each other).
+
+Not proved: allocation failure paths of VARR; behaviour of DLIST calls that violate the usage rules
+(the header does not detect them; they are outside the specification).
+-/
+namespace MirVerif.C19
+open MirVerif
+
+/-! ## VARR -/
+
+/-- one call refines one list step; the representation invariant `els_num ≤ size` is kept -/
+theorem varr_step {α : Type} (v : Varr.Varr α) (h : Varr.WF v) (op : Varr.Op α) :
+    (Varr.step v op).map (fun r => (Varr.abs r.1, r.2)) = Varr.specStep (Varr.abs v) op ∧
+    ∀ v' o, Varr.step v op = some (v', o) → Varr.WF v' :=
+  Varr.step_refines v h op
+
+/-- **varr_seq**: every history from `VARR_CREATE` -/
+theorem varr_seq {α : Type} (size : Nat) (ops : List (Varr.Op α)) :
+    (Varr.run (Varr.create size : Varr.Varr α) ops).map (fun r => (Varr.abs r.1, r.2)) =
+      Varr.specRun [] ops := by
+  have := Varr.run_refines ops (Varr.create size : Varr.Varr α) (Varr.create_abs size).2
+  rwa [(Varr.create_abs size).1] at this
+
+/-- non-vacuity: growth past the initial capacity, pop, trunc, tailor, set -/
+example : (Varr.run (Varr.create 1 : Varr.Varr Nat)
+    [.push 7, .push 8, .push 9, .pop, .set 0 5, .get 0, .trunc 1, .tailor 3, .length]).map
+      (fun r => (Varr.abs r.1, r.2)) =
+    some ([some 5, none, none], [.unit, .unit, .unit, .val (some 9), .unit, .val (some 5), .unit, .unit, .nat 3]) := by
+  decide
+
+/-- a rejected call: `VARR_POP` of an empty array -/
+example : Varr.run (Varr.create 4 : Varr.Varr Nat) [.push 1, .pop, .pop] = none := by decide
+
+/-! ## DLIST -/
+
+/-- one call on a state representing `l`, allowed by the usage rules, succeeds (no
+`DLIST_ASSERT` fires) and yields a state representing the updated list -/
+theorem dlist_step (s : Dlist.St) (l l' : List Nat) (op : Dlist.Op) (hr : Dlist.Rep s l)
+    (hs : Dlist.specStep s.next.length l op = some l') :
+    ∃ s', Dlist.step s op = some s' ∧ Dlist.Rep s' l' ∧ s'.next.length = s.next.length := by
+  cases op with
+  | prepend e =>
+    simp only [Dlist.specStep] at hs
+    split at hs
+    · rename_i h; cases hs
+      exact Dlist.prepend_rep s l e hr h.1 h.2
+    · cases hs
+  | append e =>
+    simp only [Dlist.specStep] at hs
+    split at hs
+    · rename_i h; cases hs
+      exact Dlist.append_rep s l e hr h.1 h.2
+    · cases hs
+  | insertBefore b e =>
+    simp only [Dlist.specStep] at hs
+    split at hs
+    · rename_i h; cases hs
+      obtain ⟨l1, l2, rfl⟩ := List.append_of_mem h.2.2
+      have hb : b ∉ l1 := fun c => (List.nodup_append.1 hr.nodup).2.2 b c b (by simp) rfl
+      rw [Dlist.insBefore_split l1 l2 b e hb]
+      exact Dlist.insertBefore_rep s l1 l2 b e hr h.1 h.2.1
+    · cases hs
+  | insertAfter a e =>
+    simp only [Dlist.specStep] at hs
+    split at hs
+    · rename_i h; cases hs
+      obtain ⟨l1, l2, rfl⟩ := List.append_of_mem h.2.2
+      have ha : a ∉ l1 := fun c => (List.nodup_append.1 hr.nodup).2.2 a c a (by simp) rfl
+      rw [Dlist.insAfter_split l1 l2 a e ha]
+      exact Dlist.insertAfter_rep s l1 l2 a e hr h.1 h.2.1
+    · cases hs
+  | remove e =>
+    simp only [Dlist.specStep] at hs
+    split at hs
+    · rename_i h; cases hs
+      obtain ⟨l1, l2, rfl⟩ := List.append_of_mem h
+      have he : e ∉ l1 := fun c => (List.nodup_append.1 hr.nodup).2.2 e c e (by simp) rfl
+      rw [Dlist.erase_split l1 l2 e he]
+      obtain ⟨s', h1, h2, h3, _⟩ := Dlist.remove_rep s l1 l2 e hr
+      exact ⟨s', h1, h2, h3⟩
+    · cases hs
+
+theorem dlist_run : ∀ (ops : List Dlist.Op) (s : Dlist.St) (l l' : List Nat), Dlist.Rep s l →
+    Dlist.specRun s.next.length l ops = some l' →
+    ∃ s', Dlist.run s ops = some s' ∧ Dlist.Rep s' l'
+  | [], s, l, l', hr, hs => by
+    simp only [Dlist.specRun] at hs; cases hs
+    exact ⟨s, rfl, hr⟩
+  | op :: ops, s, l, l', hr, hs => by
+    simp only [Dlist.specRun] at hs
+    cases h1 : Dlist.specStep s.next.length l op with
+    | none => rw [h1] at hs; cases hs
+    | some l1 =>
+      rw [h1] at hs
+      obtain ⟨s1, e1, r1, n1⟩ := dlist_step s l l1 op hr h1
+      rw [← n1] at hs
+      obtain ⟨s', e2, r2⟩ := dlist_run ops s1 l1 l' r1 hs
+      exact ⟨s', by simp only [Dlist.run, e1]; exact e2, r2⟩
+
+/-- what `Rep` means observably -/
+theorem dlist_observe (s : Dlist.St) (l : List Nat) (hr : Dlist.Rep s l) :
+    Dlist.toList s = l ∧ Dlist.toListRev s = l.reverse ∧ Dlist.length s = l.length ∧
+    s.head = l.head? ∧ s.tail = l.getLast? ∧
+    (∀ n : Int, Dlist.el s n = if n ≥ 0 then l[n.toNat]? else l.reverse[(-n - 1).toNat]?) := by
+  refine ⟨Dlist.toList_rep s l hr, Dlist.toListRev_rep s l hr, ?_, hr.head, ?_, Dlist.el_rep s l hr⟩
+  · rw [Dlist.length, Dlist.toList_rep s l hr]
+  · rw [hr.tail, List.head?_reverse]
+
+/-- **dlist_seq**: every history (from `DLIST_INIT` over `n` nodes) allowed by the usage rules -/
+theorem dlist_seq (n : Nat) (ops : List Dlist.Op) (l : List Nat)
+    (hs : Dlist.specRun n [] ops = some l) :
+    ∃ s, Dlist.run (Dlist.init n) ops = some s ∧ Dlist.Rep s l ∧
+      Dlist.toList s = l ∧ Dlist.toListRev s = l.reverse ∧ Dlist.length s = l.length := by
+  have hn : (Dlist.init n).next.length = n := by simp [Dlist.init]
+  obtain ⟨s, h1, h2⟩ := dlist_run ops (Dlist.init n) [] l (Dlist.init_rep n) (by rw [hn]; exact hs)
+  obtain ⟨a, b, c, _⟩ := dlist_observe s l h2
+  exact ⟨s, h1, h2, a, b, c⟩
+
+/-- **dlist invariants**: `head->prev = NULL`, `tail->next = NULL`, and `prev`/`next` are inverse
+on the elements of the list -/
+theorem dlist_invariants (s : Dlist.St) (l : List Nat) (hr : Dlist.Rep s l) :
+    (∀ h, s.head = some h → Dlist.prv s h = none) ∧
+    (∀ t, s.tail = some t → Dlist.nxt s t = none) ∧
+    (∀ x y, x ∈ l → Dlist.nxt s x = some y → y ∈ l ∧ Dlist.prv s y = some x) ∧
+    (∀ x y, x ∈ l → Dlist.prv s x = some y → y ∈ l ∧ Dlist.nxt s y = some x) := by
+  have key : ∀ (F G : Nat → Option Nat) (m : List Nat), m.Nodup → Dlist.Chain F m none →
+      Dlist.Chain G m.reverse none → ∀ x y, x ∈ m → F x = some y → y ∈ m ∧ G y = some x := by
+    intro F G m hnd hF hG x y hx hxy
+    obtain ⟨m1, m2, rfl⟩ := List.append_of_mem hx
+    have h1 := Dlist.chain_at _ _ _ _ _ hF
+    rw [hxy, Dlist.hdOr_none] at h1
+    cases m2 with
+    | nil => simp at h1
+    | cons z m3 =>
+      have : y = z := by simpa using h1
+      subst this
+      refine ⟨by simp, ?_⟩
+      have hrev : (m1 ++ x :: y :: m3).reverse = m3.reverse ++ y :: (x :: m1.reverse) := by simp
+      rw [hrev] at hG
+      have := Dlist.chain_at _ _ _ _ _ hG
+      simpa using this
+  refine ⟨?_, ?_, key _ _ l hr.nodup hr.cx hr.cp, ?_⟩
+  · intro h hh
+    cases l with
+    | nil => rw [hr.head] at hh; cases hh
+    | cons a t =>
+      have : h = a := by rw [hr.head] at hh; simpa using hh.symm
+      subst this
+      exact Dlist.rep_head_prev s h t hr
+  · intro t ht
+    rcases List.eq_nil_or_concat l with rfl | ⟨r, tl, rfl⟩
+    · rw [hr.tail] at ht; cases ht
+    · rw [List.concat_eq_append] at *
+      have : t = tl := by rw [hr.tail] at ht; simpa using ht.symm
+      subst this
+      exact Dlist.rep_tail_next s r t hr
+  · intro x y hx hxy
+    have := key (Dlist.prv s) (Dlist.nxt s) l.reverse (Dlist.nodup_reverse _ hr.nodup) hr.cp
+      (by rw [List.reverse_reverse]; exact hr.cx) x y (List.mem_reverse.2 hx) hxy
+    exact ⟨List.mem_reverse.1 this.1, this.2⟩
+
+/-- non-vacuity: a history with every operation kind on 4 nodes -/
+example : Dlist.specRun 4 [] [.append 1, .prepend 0, .insertAfter 1 3, .insertBefore 3 2, .remove 0]
+    = some [1, 2, 3] := by decide
+
+example : (Dlist.run (Dlist.init 4) [.append 1, .prepend 0, .insertAfter 1 3, .insertBefore 3 2,
+    .remove 0]).map (fun s => (Dlist.toList s, Dlist.toListRev s, s.head, s.tail)) =
+    some ([1, 2, 3], [3, 2, 1], some 1, some 3) := by decide
+
+end MirVerif.C19
